@@ -86,7 +86,10 @@ func (o *Oracle) IsInterfaceNil() bool { return o == nil }
 // ---- epoch notifier
 
 // Notifier records the subscribers the factory registers.
-type Notifier struct{ Subs []vmcommon.EpochSubscriberHandler }
+type Notifier struct {
+	Subs []vmcommon.EpochSubscriberHandler
+	n    uint64
+}
 
 // RegisterNotifyHandler -
 func (n *Notifier) RegisterNotifyHandler(h vmcommon.EpochSubscriberHandler) {
@@ -96,10 +99,17 @@ func (n *Notifier) RegisterNotifyHandler(h vmcommon.EpochSubscriberHandler) {
 // IsInterfaceNil -
 func (n *Notifier) IsInterfaceNil() bool { return n == nil }
 
-// Confirm notifies every subscriber.
+// Confirm notifies every subscriber; the timestamps of successive notifications shrink (a later notification may well be
+// about an older header: activation follows the notification order, not the timestamps).
 func (n *Notifier) Confirm(epoch uint32) {
+	n.n++
+	n.ConfirmAt(epoch, 1<<40-n.n)
+}
+
+// ConfirmAt notifies every subscriber with the given timestamp.
+func (n *Notifier) ConfirmAt(epoch uint32, ts uint64) {
 	for _, s := range n.Subs {
-		s.EpochConfirmed(epoch, 0)
+		s.EpochConfirmed(epoch, ts)
 	}
 }
 
